@@ -745,6 +745,18 @@ func (c *HttpClient) parseIPCStream(raw *bytes.Reader, expected *arrow.Schema, t
 	}
 	defer reader.Release()
 	if expected != nil && !clientSchemasEqual(reader.Schema(), expected) {
+		// A server frames an error envelope with whatever schema it has at
+		// hand — a failure before dispatch (stream init error, cap refusal)
+		// uses the empty schema — so look for the exception before calling
+		// the difference a schema mismatch; otherwise the typed server error
+		// is masked by a client-side TypeError.
+		for reader.Next() {
+			record := reader.RecordBatch()
+			metadata := recordMetadata(record)
+			if record.NumRows() == 0 && metadata[MetaLogLevel] == string(LogException) {
+				return nil, rpcErrorFromMetadata(metadata)
+			}
+		}
 		return nil, &RpcError{Type: "TypeError", Message: fmt.Sprintf("response schema mismatch: expected %s, got %s", expected, reader.Schema())}
 	}
 	parsed := &parsedClientStream{}
